@@ -94,11 +94,12 @@ Proof.
     repeat match goal with F : _ && _ = true |- _ => apply andb_true_iff in F; destruct F end.
     assert (Hids : ids s1 = []).
     { assert (Ro : r_out r = []) by (apply (Q3 r Eh); assumption).
-      match goal with D : r_updated r || eqsetN (r_out r) (ids s1) = true |- _ => apply orb_true_iff in D; destruct D as [Du|De] end.
+      match goal with D : r_updated r || negb _ = true |- _ => apply skip_update_spec in D; destruct D as [Du|(_ & _ & De)] end.
       - apply (Q4 r Eh Du); assumption.
       - rewrite Ro in De. unfold eqsetN in De. apply andb_true_iff in De. destruct De as [_ De]. rewrite subsetN_spec in De.
         apply incl_nil_eq. exact De. }
-    match goal with B : Bool.eqb b _ = true |- _ => apply Bool.eqb_prop in B; rewrite B, Hids end. apply orb_true_r.
+    match goal with B : Bool.eqb b _ = true |- _ => apply Bool.eqb_prop in B; rewrite B, Hids end.
+    rewrite check_complete_spec. apply orb_true_r.
   - left. assert (Hex : existsb sbatch_ok tr1 = true).
     { clear -En. induction tr1 as [|x t IH]; cbn in *; [discriminate|]. destruct (sbatch_ok x); cbn in *; auto. }
     apply existsb_exists in Hex. exact Hex.
